@@ -149,6 +149,31 @@ func runC04(c *mon.Ctx) {
 					}
 					c.Eval(fmt.Sprintf("%s|point=%s|claimed=%s|expect-accept=%v", kname, names[pi], rname, wantAccept), kname != "zero")
 				}
+				// the same proof object, stored in a fixed-stride record whose slices have spare capacity, verified twice:
+				// a verification must not write into the caller's proof
+				{
+					rec := make([]banderwagon.Element, 24)
+					for i := range rec {
+						rec[i] = banderwagon.Generator
+					}
+					copy(rec[0:8], pr.L)
+					copy(rec[16:24], pr.R)
+					p2 := ipa.IPAProof{L: rec[0:8], R: rec[16:24], A_scalar: pr.A_scalar}
+					for pass := 0; pass < 2; pass++ {
+						ok, verr := ipa.CheckIPAProof(common.NewTranscript("c04"), env.Conf, comm, p2, zf, FrFromBig(correct))
+						if !ok || verr != nil {
+							c.Fail(fmt.Sprintf("correct-result-rejected/stride-record/pass%d", pass), fmt.Sprintf("CheckIPAProof rejects p(point) at point %s when the proof's slices live in a larger record (pass %d): a previous verification modified the caller's proof", names[pi], pass), nil)
+							break
+						}
+					}
+					for i := 8; i < 16; i++ {
+						if rec[i] != banderwagon.Generator {
+							c.Fail("proof-record-modified", "CheckIPAProof wrote into the spare capacity behind proof.L", nil)
+							break
+						}
+					}
+					c.Eval(fmt.Sprintf("%s|point=%s|stride-record-twice", kname, names[pi]), kname != "zero")
+				}
 				// independent verifier on a sample
 				if refBudget > 0 && (pi+p)%7 == 0 {
 					refBudget--
